@@ -20,6 +20,7 @@ from pyvc.verify import Contract
 
 from .job import FSContract, GETTERS, JOB, RLockStub
 from .jobfs import mk_job, mk_project, mk_spdict
+from pyvc.theory_fs import LIn, Name
 
 
 class DeepCopyOf(Sym):
@@ -41,7 +42,7 @@ class CopyCtxMixin:
 
 class JobGetstate(FSContract):
     target = f"{JOB}.Job.__getstate__"
-    properties = ("C03", "C04")
+    properties = ("C03", "C04", "C05", "C10")      # an open document handle travels with the state as it is (same file, same write concern)
 
     def setup(self, interp, case):
         ex, ctx = interp.ex, interp.ctx
@@ -49,6 +50,9 @@ class JobGetstate(FSContract):
         proj = mk_project(ex)
         job = mk_job(interp, proj, "me")
         job.fields["_lock"] = RLockStub()
+        if ex.decide(None, "pre:document handle open"):
+            from .jobfs import SDoc
+            job.fields["_document"] = SDoc(LIn(proj.p, job.me, Name.DOC), True)
         return [job], {}, {"job": job, "before": fields_snapshot(job)}
 
     def post(self, interp, case, pre, outcome):
